@@ -20,6 +20,8 @@ import (
 
 	"golang.org/x/telemetry/internal/telemetry"
 	"golang.org/x/telemetry/internal/verif/vmodel"
+	"golang.org/x/telemetry/internal/verif/vstats"
+	"pgregory.net/rapid"
 )
 
 type vuRequest struct {
@@ -150,4 +152,17 @@ func vuLogWriter() io.Writer {
 		return os.Stderr
 	}
 	return io.Discard
+}
+
+// vuProcessZone draws the local zone of the process for one case (weeks, days and the dates compared by the
+// uploader are UTC whatever the local zone is) and returns the function that restores it.
+func vuProcessZone(t *rapid.T) func() {
+	lz := rapid.SampledFrom([]int{0, 0, 0, -8 * 3600, -12 * 3600, 14 * 3600, 5*3600 + 1800}).Draw(t, "processZone")
+	if lz == 0 {
+		return func() {}
+	}
+	saved := time.Local
+	time.Local = time.FixedZone("local", lz)
+	vstats.Label("processInOtherZone")
+	return func() { time.Local = saved }
 }
